@@ -33,6 +33,8 @@ func vh_ALIS() {
 	}
 	pre := vSnapshotNode(n)
 	installed := false
+	more := vNondetBool("entries-committed-after-the-install")
+	appended := false
 	doInstall := vNondetBool("install-during-apply")
 	if doInstall {
 		vTag("install-during-apply", "true")
@@ -47,6 +49,15 @@ func vh_ALIS() {
 		resp := &InstallSnapshotResponse{}
 		err := r.InstallSnapshot(req, resp)
 		vAssert(err == nil, "C18.is-total")
+		// ... and, still before the Apply returns, the leader's next entries arrive and are committed
+		if more && r.lastIncludedIndex == L {
+			es := []*LogEntry{{Index: L + 1, Term: req.LastIncludedTerm, EntryType: OperationEntry, Data: []byte{1}},
+				{Index: L + 2, Term: req.LastIncludedTerm, EntryType: OperationEntry, Data: []byte{2}}}
+			ar := &AppendEntriesResponse{}
+			aerr := r.AppendEntries(&AppendEntriesRequest{LeaderID: "n2", Term: r.currentTerm, PrevLogIndex: L, PrevLogTerm: req.LastIncludedTerm,
+				Entries: es, LeaderCommit: L + 2}, ar)
+			appended = aerr == nil && ar.Success
+		}
 	}
 	ctl := &vLoopCtl{}
 	var post vSnap
@@ -66,6 +77,24 @@ func vh_ALIS() {
 	vAssert(!n.fsm.order, "C10.no-operation-applied-on-a-state-that-already-reflects-it")
 	vAssert(vAnd(post.applied >= L, post.commit >= L), "C10|C11.indices-at-or-beyond-label-after-install")
 	vAssert(post.applied >= pre.applied, "C11.applied-monotone")
+	if appended {
+		// two operations were committed behind the snapshot while the Apply was still in flight: each of them is handed
+		// to the state machine exactly once, in order, and lastApplied names the last one
+		vCover("entries-committed-after-the-install")
+		var behind []uint64
+		for _, a := range n.fsm.applied {
+			if a.typ == Replicated && a.index > L {
+				behind = append(behind, a.index)
+			}
+		}
+		vAssert(vAnd(post.applied == L+2, post.commit == L+2), "C01|C03|C10|C11.everything-committed-behind-the-snapshot-gets-applied")
+		vAssert(len(behind) == 2, "C01|C03|C10|C11.no-committed-entry-behind-the-snapshot-is-skipped")
+		if len(behind) == 2 {
+			vAssert(vAnd(behind[0] == L+1, behind[1] == L+2), "C01|C03|C10|C11.no-committed-entry-behind-the-snapshot-is-skipped")
+		}
+		vCheckInv(n, true, true)
+		return
+	}
 	// the log was discarded up to the label, so nothing beyond the label can have been handed to the state machine:
 	// lastApplied names the label exactly (every index at or below lastApplied is reflected by the snapshot or was applied)
 	vAssert(vAnd(post.applied == L, post.commit == L), "C01|C03|C04|C10.applied-index-is-exactly-the-label-after-install")
